@@ -32,12 +32,11 @@ const ANCHOR_ONLY: &[(&str, &str)] = &[("hash", "hash.rs")];
 
 /// traits whose declaration lives in /repo but whose contract is in the prelude (R14)
 const PRELUDE_TRAITS: &[&str] = &[
-    "KeGroup", "SecretKey", "Ksf", "CipherSuite", "Hash", "ProxyHash", "UpdateExt", "MacExt",
+    "KeGroup", "SecretKey", "Ksf", "CipherSuite", "Hash", "ProxyHash",
 ];
 /// trait impls that are dropped (not modelled): formatting, zeroize, serde, blanket plumbing
 const DROPPED_IMPL_TRAITS: &[&str] = &[
     "Debug", "Error", "Zeroize", "Display", "ProxyHash", "Hash",
-    "UpdateExt", "MacExt",
 ];
 /// where-predicate / bound words that mark type-level bookkeeping (R2)
 const BOOKKEEPING: &[&str] = &[
